@@ -351,6 +351,8 @@ def to_ty(interp, st, v, ty):
     """convert a python-level value to an SV of type ty (interning concrete-shaped
     containers into the heap when ty is a Ref)."""
     if isinstance(v, SV):
+        if isinstance(v.ty, Opt) and not isinstance(ty, Opt) and v.ty.inner == ty:
+            return unwrap_opt(interp, st, v, 'argument')
         return sym.coerce(v, ty)
     if isinstance(ty, Opt):
         if v is None:
